@@ -1,7 +1,8 @@
 /-
   C02 — All encoders emit the same bytes and Size() is their exact length.
 
-  `enc` is the reference encoding (Bebop.Wire); `vsize` is what Size() computes; `marshal`, `marshalTo`
+  `enc` is the reference encoding (Bebop.Wire); `vsize` is what Size() computes on a value without
+  deprecated fields (every `wt` value; `gsize` is Size() in general, `C02_size_is_go_size`); `marshal`, `marshalTo`
   (Bebop.Slice) and `encodeStream` (Bebop.Stream) model the three generated encoders.
   Map entries: a `Val` carries its entries in the order they go on the wire, so "the same bytes up to
   the order of map entries" is "the same bytes for the same `Val`".
@@ -9,11 +10,18 @@
 import Bebop.Props.Common
 import Bebop.Proofs.Enc
 import Bebop.Proofs.Writer
+import Bebop.Proofs.GSize
 
 namespace Bebop
 
 /-- Size() is exactly the length of the encoding. -/
 theorem C02_size_exact (v : Val) : vsize v = (enc v).length := (length_enc v).symm
+
+/-- The link to the generated `Size()` proper (`gsize`, type-directed: it skips the fields a message
+    definition marks deprecated): on every well-typed value — which holds no deprecated field, the encoders
+    never write one — it is `vsize`, hence the length of the encoding. -/
+theorem C02_size_is_go_size (env : Env) (ty : Ty) (v : Val) (h : wt env ty v) : gsize env ty v = vsize v :=
+  gsize_eq_vsize_of_wt env v ty h
 
 /-- MarshalBebopTo into ANY buffer that is long enough, whatever it held before: the first Size() bytes
     become the encoding, every byte after them is untouched, and the returned count is Size(). It never
